@@ -169,6 +169,28 @@ theorem step_len (cp : CP) (hdc : DCI cp) (op : Op) : (step cp op).disps.length 
   | tick => exact Steps_n (cpTick_steps cp hdc)
   | _ => rfl
 
+/-- a property of the default dispatcher and of every listed dispatcher holds at every index -/
+theorem disp_forall (cp : CP) (P : Disp → Prop) (hd : P default) (h : ∀ d ∈ cp.disps, P d) (j : Nat) :
+    P (cp.disp j) := by
+  by_cases hj : j < cp.disps.length
+  · have : cp.disp j = cp.disps[j] := by simp [CP.disp, List.getD_eq_getElem?_getD, hj]
+    rw [this]; exact h _ (List.getElem_mem hj)
+  · rw [disp_oob cp j hj]; exact hd
+
+theorem run_len : ∀ (ops : List Op) (cp : CP), DCI cp → (run cp ops).disps.length = cp.disps.length := by
+  intro ops
+  induction ops with
+  | nil => intro cp _; rfl
+  | cons op ops ih =>
+    intro cp hd
+    show (run (step cp op) ops).disps.length = _
+    rw [ih _ (step_DCI cp op hd), step_len cp hd]
+
+theorem fair_len (cfg : Cfg) (nd : Nat) (pool : List CU) (ops : List Op) :
+    (run (mkCP cfg nd pool) ops).disps.length = nd := by
+  rw [run_len _ _ (mkCP_DCI cfg nd pool)]
+  simp [mkCP]
+
 /-- a sequence that never increases in a well-founded order is eventually constant in that order -/
 theorem eventually_stable (μ : Nat → Nat × Nat × Nat)
     (hle : ∀ n, μ (n + 1) = μ n ∨ lt3 (μ (n + 1)) (μ n)) :
